@@ -123,6 +123,9 @@ def plans(ctx):
 
 
 def run(ctx):
+    if os.environ.get("VERIF_C17_ONLY") == "conc":      # development aid: only the concurrent-Take part
+        conc(ctx, ctx.go_build(PKG, OVERLAY, name="c17drv"))
+        return
     mc(ctx)
     binp = ctx.go_build(PKG, OVERLAY, name="c17drv")
     P, S = plans(ctx)
@@ -147,15 +150,22 @@ def run(ctx):
     conc(ctx, binp)
 
 
+INVS_TAKE = ["FlightsDisjoint", "CachedOnlyOnSuccess"]
+
+
 def conc(ctx, binp):
     """Concurrent Take callers: record call/fetch traces on the real cache, validate them with TLC."""
     rounds = 60 if ctx.quick else 600
-    for gmp, procs in ([(4, 5)] if ctx.quick else [(1, 4), (4, 6), (16, 8)]):
-        lab = "take-g%d" % gmp
+    runs = [("gated", 4, 5, rounds)] if ctx.quick else [("gated", 1, 4, rounds), ("gated", 4, 6, rounds), ("gated", 16, 8, rounds)]
+    # many staggered callers on one fresh key with an almost immediate fetch
+    runs += [("stagger", 4, 64, 400), ("stagger", 16, 64, 400)] if ctx.quick else \
+            [("stagger", 2, 64, 1500), ("stagger", 4, 64, 1500), ("stagger", 8, 32, 1500), ("stagger", 16, 64, 1500)]
+    for shape, gmp, procs, n in runs:
+        lab = "take-%s-g%d" % (shape, gmp)
         tr = os.path.join(ctx.build, lab + ".ndjson")
         ctx.replay(PKG, OVERLAY, "^TestVerifC17Take$", None, label=lab, gomaxprocs=gmp, binp=binp,
-                   env=dict(VERIF_TRACE=tr, VERIF_ROUNDS=rounds, VERIF_PROCS=procs))
-        ctx.validate_traces("MemCacheTake", tr, key_prefix="C17:take", invariants=["FlightsDisjoint"], name="trace-" + lab,
+                   env=dict(VERIF_TRACE=tr, VERIF_ROUNDS=n, VERIF_PROCS=procs, VERIF_SHAPE=shape))
+        ctx.validate_traces("MemCacheTake", tr, key_prefix="C17:take", invariants=INVS_TAKE, name="trace-" + lab,
                             timeout=1200)
 
 
@@ -163,7 +173,7 @@ def replay(ctx, rp):
     if rp.get("source") == "trace":
         tr = os.path.join(ctx.build, "take-replay.ndjson")
         open(tr, "w").write("\n".join(json.loads(rp["case"])) + "\n")
-        ctx.validate_traces("MemCacheTake", tr, key_prefix="C17:take", invariants=["FlightsDisjoint"], name="trace-replay")
+        ctx.validate_traces("MemCacheTake", tr, key_prefix="C17:take", invariants=INVS_TAKE, name="trace-replay")
         return
     path, _ = ctx.write_cases("replay.ndjson", [rp["case"]])
     msg = rp.get("msg") or ""
